@@ -52,6 +52,10 @@ def op_strategy(focus, pool):
         T(J('wbs_remove_all'), st.integers(0, NW - 1), idl, J('')),
         T(J('new_task'), st.sampled_from(pool), opt, st.one_of(st.none(), seq), st.one_of(st.none(), seq),
           st.one_of(st.none(), seq), flag_any),
+        T(J('ctor'), J('new'), st.sampled_from(pool), opt, st.one_of(st.none(), seq), st.one_of(st.none(), seq),
+          st.one_of(st.none(), seq), st.sampled_from([None, None, 'zone', 'wbs', 'all_children']), flag_any),
+        T(J('ctor'), J('clone'), ti, opt, st.one_of(st.none(), seq), st.one_of(st.none(), seq),
+          st.one_of(st.none(), seq), st.sampled_from([None, None, 'zone', 'wbs', 'id', 'id']), flag_any),
     ]
     deps = [
         T(J('set_preds'), ti, seq, form, flag_any),
@@ -70,7 +74,7 @@ def op_strategy(focus, pool):
         T(J('dep_rshift'), ti, st.sampled_from(['preds', 'succs']), seq, flag_any),
     ]
     H = dict(zip(['set_parent', 'set_children', 'append', 'adopt_children', 'insert', 'remove', 'move', 'sort', 'reorder',
-                  'remove_all', 'floordiv', 'bulk_parent', 'wbs_remove', 'wbs_remove_all', 'new_task'], hier))
+                  'remove_all', 'floordiv', 'bulk_parent', 'wbs_remove', 'wbs_remove_all', 'new_task', 'ctor_new', 'ctor_clone'], hier))
     D = dict(zip(['set_preds', 'set_succs', 'pred_append', 'pred_remove', 'succ_append', 'succ_remove',
                   'pred_remove_all', 'succ_remove_all', 'lshift', 'rshift', 'list_lshift', 'list_rshift', 'dep_lshift', 'dep_rshift'], deps))
     late_ops = [
@@ -86,13 +90,13 @@ def op_strategy(focus, pool):
     if focus == 'general':
         W = [(3, H['set_parent']), (3, H['set_children']), (3, H['append']), (1, H['adopt_children']), (2, H['insert']), (1, H['remove']),
              (2, H['move']), (1, H['sort']), (1, H['reorder']), (1, H['remove_all']), (2, H['floordiv']),
-             (1, H['bulk_parent']), (1, H['wbs_remove']), (1, H['wbs_remove_all']), (1, H['new_task']),
+             (1, H['bulk_parent']), (1, H['wbs_remove']), (1, H['wbs_remove_all']), (1, H['new_task']), (1, H['ctor_new']), (1, H['ctor_clone']),
              (3, D['set_preds']), (3, D['set_succs']), (2, D['pred_append']), (1, D['pred_remove']),
              (2, D['succ_append']), (1, D['succ_remove']), (1, D['pred_remove_all']), (1, D['succ_remove_all']),
              (2, D['lshift']), (2, D['rshift']), (1, D['list_lshift']), (1, D['list_rshift']), (1, D['dep_lshift']), (1, D['dep_rshift'])]
     elif focus == 'collide':
         W = [(5, H['set_parent']), (5, H['set_children']), (6, H['append']), (1, H['adopt_children']), (4, H['insert']), (1, H['remove']),
-             (1, H['move']), (3, H['floordiv']), (2, H['bulk_parent']), (1, H['wbs_remove']), (3, H['new_task']),
+             (1, H['move']), (3, H['floordiv']), (2, H['bulk_parent']), (1, H['wbs_remove']), (3, H['new_task']), (1, H['ctor_new']), (1, H['ctor_clone']),
              (1, D['set_preds']), (1, D['pred_append'])]
     elif focus == 'membership':
         W = [(4, H['set_parent']), (5, H['set_children']), (6, H['append']), (1, H['adopt_children']), (2, H['insert']), (4, H['remove']),
@@ -101,7 +105,7 @@ def op_strategy(focus, pool):
     elif focus == 'late':
         W = [(2, H['set_parent']), (2, H['set_children']), (3, H['append']), (1, H['adopt_children']), (4, H['insert']), (1, H['remove']),
              (5, H['move']), (3, H['sort']), (3, H['reorder']), (1, H['remove_all']), (1, H['floordiv']),
-             (3, H['bulk_parent']), (1, H['wbs_remove']),
+             (3, H['bulk_parent']), (1, H['wbs_remove']), (2, H['ctor_new']), (2, H['ctor_clone']),
              (2, D['set_preds']), (2, D['set_succs']), (1, D['pred_append']), (1, D['succ_append']),
              (2, D['list_lshift']), (2, D['list_rshift']), (1, D['dep_lshift']), (1, D['dep_rshift'])] + [(2, o) for o in late_ops]
     elif focus == 'legal':
@@ -191,6 +195,8 @@ def history(draw, focus='general', max_ops=24, large=False):
                 o[2] = [f(i) for i in o[2]]
             elif o[0] == 'new_task':
                 o[1] = f(o[1])
+            elif o[0] == 'ctor' and o[1] == 'new':
+                o[2] = f(o[2])
     return case
 
 
@@ -308,6 +314,15 @@ def small_alphabet(reduced=True):
         ops.append(('new_task', 4, p, [(p + 1) % 4], None, None, ''))
         ops.append(('new_task', 2, p, None, None, None, ''))
         ops.append(('new_task', 4, None, None, [p], [p], ''))
+        for extra in (None, 'wbs', 'zone'):
+            ops.append(('ctor', 'new', 4, p, None, None, None, extra, ''))
+            ops.append(('ctor', 'new', 4, None, [p], None, None, extra, ''))
+            ops.append(('ctor', 'new', 4, None, None, [p], None, extra, ''))
+        for extra in (None, 'id', 'wbs'):
+            for q in ts:
+                ops.append(('ctor', 'clone', p, q, None, None, None, extra, ''))
+            ops.append(('ctor', 'clone', p, None, [(p + 1) % 4], None, None, extra, ''))
+            ops.append(('ctor', 'clone', p, None, None, [(p + 1) % 4], [(p + 2) % 4], extra, ''))
     return ops
 
 
